@@ -65,7 +65,7 @@ theorem ltFunc_norm {tab : List TabEnt} {f : Func} (h : funcOK tab f = true) : l
       intro hb
       simp only [List.map_cons, List.flatMap_cons]
       rw [ltFItem_norm (hb x (List.mem_cons_self)), ih (fun y hy => hb y (List.mem_cons_of_mem _ hy))]
-  have hbody := gen f.body h.1.1.2
+  have hbody := gen f.body h.1.2
   simp only [ltFunc, normFunc, ltProtoBody_norm, hbody, funcCommentBody, List.length_map]
 
 theorem ofNat_mod (n v : Nat) : BitVec.ofNat n (v % 2 ^ n) = BitVec.ofNat n v := by
